@@ -688,6 +688,8 @@ static int cif_value_clone_table(struct table_value_s *value, struct table_value
                     }
 
                     FAILURE_HANDLER(hash):
+                    /* the value may already have been cloned; it holds no resources otherwise */
+                    cif_value_clean(new_value);
                     free(new_entry->key_orig);
                 }
                 free(new_entry->key);
